@@ -141,6 +141,25 @@ def run(ck: Check):
                               "bound": bound(n, m)})
     from scale import linked_testcase_core
     linked_testcase_core(ck, bound)
+    import logging
+    for kind, text in (("char", "aé€b😀c".encode()), ("line", b"caf\xe9\nna\xefve\n\xff\xfe\nplain\n"), ("symbol", "x=é;y=€;z".encode())):
+        from runner import impl_run
+        tcx = None
+        for level in (logging.INFO, logging.DEBUG):
+            base = impl_run("minimize", {}, None, text, "Y", atom=kind, load=True)
+            parts = base.loaded[1]
+            for core in ((), (0,), (len(parts) - 1,), tuple(range(0, len(parts), 2))):
+                want = b"".join(parts[i] for i in core)
+                f = (lambda d, core=core, parts=parts: all(parts[i] in d for i in core))
+                # atoms may repeat as byte strings (continuation bytes): accept exactly the supersets of the core in order
+                run_ = impl_run("minimize", {}, None, text, lambda k, d, f=f: "Y" if f(d) else "N", atom=kind, load=True,
+                                log_level=level, cap=bound(len(parts), len(core)) + 50)
+                ck.count("logging-on")
+                ck.nontrivial(("logging-on", kind, level, core))
+                if run_.exc is not None or not f(run_.final) or run_.tests > bound(len(parts), len(core)):
+                    ck.violation(f"minimize/{kind} with the command line's logging level {logging.getLevelName(level)} on {text!r} "
+                                 f"(core {core}): ended exc={run_.exc}, {run_.tests} tests (bound {bound(len(parts), len(core))}), "
+                                 f"final {run_.final!r}", {"atom": kind, "data": text.hex(), "core": list(core), "level": level})
     ex.diff()
     return ck.finish(level="proof", rule=RULE, assumptions=[
         "the test-count bound is a Coq theorem only in the form stated in Props/C10.v; see level note"])
